@@ -55,3 +55,14 @@ package avs
 //@   modifies state(ctx)
 //@   flag havoc=GetTaskParamsFromInputs,Keeper).CreateAVSTask
 //@   before[C10.pavs.task.bind] Keeper).CreateAVSTask requires arg_params.TaskContractAddress == ethaddrstr(old(contract.CallerAddress))
+
+// C20 (a task's windows are the ones its creator asked for): the task parameters handed to the keeper carry each period
+// from its own ABI argument - response period from argument 3, challenge period from 4, threshold from 5, statistical
+// period from 6.
+//@ func (Precompile).GetTaskParamsFromInputs
+//@   names ctx, args
+//@   flag noframe
+//@   flag pure=Errorf
+//@   ensures[C20.gtpfi.periods] err == nil ==> r0 != nil && len(args) > 6 &&
+//@        r0.TaskResponsePeriod == payload(args[3]) && r0.TaskChallengePeriod == payload(args[4]) &&
+//@        r0.ThresholdPercentage == payload(args[5]) && r0.TaskStatisticalPeriod == payload(args[6])
